@@ -151,8 +151,9 @@ func (p *freePool) exec(i int, op string) {
 
 // workersBlocked: a stop-the-world snapshot in which no goroutine of this package's worker function is
 // running or runnable (they are all parked in a channel operation / mutex), twice in a row.
-func workersBlocked() bool {
+func workersBlocked(need int) bool {
 	for round := 0; round < 2; round++ {
+		parked := 0
 		var n int
 		for {
 			n = runtime.Stack(stackBuf, true)
@@ -174,6 +175,12 @@ func workersBlocked() bool {
 			if open < 0 || !bytes.HasSuffix(line, []byte("]:")) || !waitState(line[open+1:len(line)-2]) {
 				return false
 			}
+			parked++
+		}
+		// every unfinished worker must be parked INSIDE its operation: one that has not been scheduled
+		// yet (still spinning towards its operation on a loaded machine) is not blocked
+		if parked < need {
+			return false
 		}
 		time.Sleep(2 * time.Millisecond)
 	}
@@ -201,7 +208,7 @@ func (p *freePool) round(jobs []freeJob) (blocked bool) {
 		if spins&0xffff == 0 {
 			if start.IsZero() {
 				start = time.Now()
-			} else if time.Since(start) > 300*time.Millisecond && workersBlocked() {
+			} else if time.Since(start) > 300*time.Millisecond && workersBlocked(p.n-int(p.finished.Load())) {
 				return true
 			}
 		}
